@@ -10,29 +10,36 @@ abbrev F64 := Nat     -- IEEE-754 binary64 bit pattern
 def f64SignBit : Nat := 2^63
 def f64Inf : Nat := 0x7ff0000000000000
 
+/-- `num · 2^-e` and `den · 2^e` with the negative powers moved to the other side: `num/den · 2^-e = scN/scD` -/
+def scN (num : Nat) (e : Int) : Nat := num * 2 ^ (-e).toNat
+def scD (den : Nat) (e : Int) : Nat := den * 2 ^ e.toNat
+
+/-- round-half-even of `n/d` to an integer -/
+def rhe (n d : Nat) : Nat :=
+  let qq := n / d
+  let r := n % d
+  if decide (2 * r > d) || (decide (2 * r = d) && qq % 2 == 1) then qq + 1 else qq
+
+/-- the exponent `p` with `2^52 ≤ ⌊num/den · 2^-p⌋ < 2^53`, found among three candidates around the log2 estimate -/
+def pickE (num den : Nat) : Int :=
+  let e0 : Int := (num.log2 : Int) - (den.log2 : Int) - 52
+  if scN num (e0 + 1) / scD den (e0 + 1) ≥ 2 ^ 52 then e0 + 1
+  else if scN num e0 / scD den e0 ≥ 2 ^ 52 then e0 else e0 - 1
+
+/-- … clamped at the exponent of the subnormals -/
+def clampE (num den : Nat) : Int := if pickE num den < -1074 then -1074 else pickE num den
+
+/-- magnitude bits of the rounded value: `(E+1074)·2^52 + roundHalfEven(num/den · 2^-E)`; one formula covers
+subnormals (E = -1074, quotient below 2^52), normals, and the carry of the quotient to 2^53 into the next binade -/
+def roundBits (num den : Nat) : Nat :=
+  let e := clampE num den
+  (e + 1074).toNat * 2 ^ 52 + rhe (scN num e) (scD den e)
+
 /-- round the positive rational `num/den` to binary64 (magnitude bits); `none` = overflow (±Inf, ErrRange) -/
 def roundF64 (num den : Nat) : Option Nat :=
   if num == 0 || den == 0 then some 0 else
-  let e0 : Int := (num.log2 : Int) - (den.log2 : Int) - 52
-  -- candidate exponents e0-1 .. e0+1; take the one with 2^52 ≤ floor(v / 2^e) < 2^53, clamped at -1074
-  let q (e : Int) : Nat × Nat × Nat :=
-    let n' := if e < 0 then num * 2 ^ (-e).toNat else num
-    let d' := if e < 0 then den else den * 2 ^ e.toNat
-    (n' / d', n' % d', d')
-  let pick : Int :=
-    let (q1, _, _) := q (e0 + 1)
-    if q1 ≥ 2^52 then e0 + 1 else
-    let (q0, _, _) := q e0
-    if q0 ≥ 2^52 then e0 else e0 - 1
-  let e := if pick < -1074 then -1074 else pick
-  let (qq, r, d') := q e
-  let up := decide (2 * r > d') || (decide (2 * r = d') && qq % 2 == 1)
-  let q' := if up then qq + 1 else qq
-  let (q', e) := if q' == 2^53 then (2^52, e + 1) else (q', e)
-  if q' ≥ 2^52 then
-    let biased := e + 1075
-    if biased ≥ 2047 then none else some (biased.toNat * 2^52 + (q' - 2^52))
-  else some q'
+  let b := roundBits num den
+  if b ≥ 2047 * 2 ^ 52 then none else some b
 
 def pow10 (n : Nat) : Nat := 10 ^ n
 
